@@ -22,6 +22,7 @@ type NativeResult struct {
 	AssumeFailed bool        `json:"assume_failed"`
 	Tags         []string    `json:"tags"`
 	Reached      []string    `json:"reached"`
+	Race         bool        `json:"-"`
 }
 
 // runNative runs the given cases natively through `go test -overlay` against the real build of repo.
@@ -146,6 +147,13 @@ func runNative(ld *Loaded, cases []ReplayCase, race bool, isolate bool) (map[int
 				out, _ := runOne(cp)
 				mu.Lock()
 				parse(out)
+				if bytes.Contains(out, []byte("WARNING: DATA RACE")) {
+					if r := results[c.ID]; r != nil {
+						r.Race = true
+					} else {
+						results[c.ID] = &NativeResult{ID: c.ID, Harness: c.Harness, Race: true}
+					}
+				}
 				if len(out) > 0 && !bytes.Contains(out, []byte("VFRESULT ")) {
 					log.Write(out)
 				}
@@ -164,6 +172,9 @@ func compareSample(c *ReplayCase, r *NativeResult) string {
 	}
 	if r.AssumeFailed {
 		return "native run failed an assumption the symbolic path satisfied"
+	}
+	if r.Race {
+		return "native run reported a data race on a path the engine found race-free"
 	}
 	if r.Panic != "" {
 		return "native run panicked: " + r.Panic
@@ -189,6 +200,9 @@ func confirmViolation(v *ViolationCase, r *NativeResult) bool {
 	}
 	if v.Kind == "panic" {
 		return r.Panic != ""
+	}
+	if v.Kind == "race" {
+		return r.Race
 	}
 	for _, f := range r.Failed {
 		if f == v.Label {
